@@ -1,6 +1,8 @@
 import Poulpy.Lemmas.CoreOpsVal
 import Poulpy.Lemmas.CoreOpsProg
 import Poulpy.Lemmas.CoreOpsNorm
+import Poulpy.Lemmas.CoreOpsShift
+import Poulpy.Props.C08
 
 /-!
 # C02 — noise-free ciphertext operations commute exactly with decryption
@@ -280,7 +282,8 @@ What is proved: the reduction of that statement to the value specification of th
 (`A·val(out column) = B·val(in column) + Eᵢ`, the shape of the C08 value theorems), with the exact
 error expression `E₀ + Σ sᵢ ⋆ Eᵢ₊₁`; instantiated for `glwe_normalize`.  The `lsh` family and
 `normalize_assign` have the same column-wise structure (`phase_value_modulo_norm` applies to their
-results verbatim) but are not instantiated; `glwe_rsh` violates the statement (see below). -/
+results verbatim) but are not instantiated.  `glwe_rsh` is proved outright (`rsh_phase`, from `C08.rsh_value`), with the
+numeric bound `phase_error_bound`. -/
 
 /-- value form of the phase for any column-wise kernel: if every result column satisfies
 `A·val(r'ᵢ) = B·val(aᵢ) + Eᵢ`, the phases satisfy the same relation with error `E₀ + Σ sᵢ ⋆ Eᵢ₊₁` -/
@@ -331,6 +334,115 @@ example : ∃ r', glweNormalize 2 { base2k := 4, k := 4, n := 2, cols := [[[0, 0
     (fun i hi => by
       have : i = 0 := by have : i ≤ 0 := hi; omega
       subst this; decide +kernel)
+  exact ⟨r', h, hp⟩
+
+/-- numeric form of the error term: **`|E₀ + Σ sᵢ ⋆ Eᵢ₊₁| ≤ (1 + Σ‖sᵢ‖₁)·max|E|`**, coefficient-wise
+(`snorm m s = Σ_{i<m} ‖sᵢ‖₁`; from the norm inequality `‖p ⋆ q‖∞ ≤ ‖p‖₁·‖q‖∞` of C01) -/
+theorem phase_error_bound {B : Int} (m : Nat) (s : List Poly) (E : Nat → Poly)
+    (hE : ∀ i, i ≤ m → ∀ v ∈ E i, |v| ≤ B) : ∀ v ∈ errTo m s E, |v| ≤ (1 + snorm m s) * B :=
+  errTo_bound m s E hE
+
+example : ∀ v ∈ errTo 1 [[1, -1]] (fun i => if i = 0 then [1, -1] else [0, 1]), |v| ≤ (1 + snorm 1 [[1, -1]]) * 1 :=
+  phase_error_bound 1 _ _ (by intro i hi v hv; have : i = 0 ∨ i = 1 := by omega
+                              rcases this with rfl | rfl <;> simp at hv <;> rcases hv with rfl | rfl <;> decide)
+
+/-- **`glwe_rsh`, every shift amount `k` and any scratch content** (the repaired `vec_znx_rsh_assign`;
+head-room of the C08 kernel: `|limb| ≤ H`, `H + 2^b + 4 ≤ 2^63`).  It returns `ok`, keeps the shape,
+every column is the column divided by `2^k` within one unit of the last limb (`NormL.TorusNear`), and
+the phase is the phase divided by `2^k` within `1 + Σ‖sᵢ‖₁` units — for every secret. -/
+theorem rsh_phase {N : Nat} {res : GLWE} (hr : GWF N res) {H : Int} (hh : NormL.HeadRoom 64 res.base2k 0 H)
+    (hb : GBound H res) (scr : Int) (k : Nat) :
+    ∃ r', glweRsh N scr k res = .ok r' ∧ Same res r' ∧ GWF N r' ∧ r'.size = res.size ∧
+      (∀ i, i ≤ res.rank → ∀ t, t < N →
+        NormL.TorusNear (valCoeff res.base2k (col r' i) t) (res.base2k * res.size)
+          (valCoeff res.base2k (col res i) t) (res.base2k * res.size + k)) ∧
+      ∀ (s : List Poly) t, t < N → ∃ q e : Int,
+        valCoeff res.base2k (phase s r') t * 2 ^ (res.base2k * res.size + k)
+          = valCoeff res.base2k (phase s res) t * 2 ^ (res.base2k * res.size) + e
+            + q * 2 ^ (res.base2k * res.size + (res.base2k * res.size + k)) ∧
+        |e| ≤ (1 + snorm (min res.rank s.length) s) * 2 ^ (res.base2k * res.size + k) := by
+  obtain ⟨r', h1, h2, h3, h4, h5, h6⟩ := rsh_generic hr scr k (fun a => rshCoef .overwrite res.base2k k a a)
+    (fun _ => rfl) (res.base2k * res.size) (res.base2k * res.size + k) (2 ^ (res.base2k * res.size + k))
+    (kernelOn_of_bound hr hh.hH0 hb _ _ _ _ _ fun a ha hab => by
+      have h := C08.rsh_value hh k a a hab
+      rw [ha] at h
+      exact ⟨h.1, h.2.2.1⟩)
+  exact ⟨r', h1, h2, h3, h4, h5, h6⟩
+
+/-- the former defect witnesses (`k = 0` with a non-normalised body, `⌈k/b⌉ = 2`, `⌈k/b⌉ > size`) are now
+inside the theorem: radix `2^4`, `H = 2^62` -/
+example : ∃ r', glweRsh 2 12345 0 { base2k := 4, k := 4, n := 2, cols := [[[9, 0]], [[1, 1]]] } = .ok r' ∧
+    ∀ (s : List Poly) t, t < 2 → ∃ q e : Int,
+      valCoeff 4 (phase s r') t * 2 ^ (4 * 1 + 0) = valCoeff 4 (phase s { base2k := 4, k := 4, n := 2, cols := [[[9, 0]], [[1, 1]]] }) t * 2 ^ (4 * 1)
+        + e + q * 2 ^ (4 * 1 + (4 * 1 + 0)) ∧ |e| ≤ (1 + snorm (min 1 s.length) s) * 2 ^ (4 * 1 + 0) := by
+  obtain ⟨r', h, _, _, _, _, hp⟩ := rsh_phase (N := 2) (res := { base2k := 4, k := 4, n := 2, cols := [[[9, 0]], [[1, 1]]] })
+    (by decide) (H := 2 ^ 62) ⟨by norm_num, by norm_num, by norm_num, by norm_num, by norm_num⟩
+    (by intro c hc l hl x hx; simp at hc; rcases hc with rfl | rfl <;> simp at hl <;> subst hl <;> simp at hx <;>
+          rcases hx with rfl | rfl <;> norm_num) 12345 0
+  exact ⟨r', h, hp⟩
+
+example : glweRsh 2 0 2 { base2k := 1, k := 1, n := 2, cols := [[[1, 1]]] } = .ok { base2k := 1, k := 1, n := 2, cols := [[[-1, -1]]] } ∧
+    glweRsh 2 7 2 { base2k := 1, k := 2, n := 2, cols := [[[0, 0], [1, 1]]] }
+      = .ok { base2k := 1, k := 2, n := 2, cols := [[[-1, -1], [-1, -1]]] } := by
+  constructor <;> decide +kernel
+
+/-- **`glwe_normalize_assign`** re-normalises without changing the torus value of any column, hence of
+the phase (`e = 0`): outright, from `C08.normalize_assign_value` -/
+theorem normalize_assign_phase {N : Nat} {res : GLWE} (hr : GWF N res) {H : Int} (hh : NormL.HeadRoom 64 res.base2k 0 H)
+    (hb : GBound H res) :
+    ∃ r', glweNormalizeAssign N res = .ok r' ∧ Same res r' ∧ GWF N r' ∧ r'.size = res.size ∧
+      ∀ (s : List Poly) t, t < N → ∃ q : Int,
+        valCoeff res.base2k (phase s r') t * 2 ^ (res.base2k * res.size)
+          = valCoeff res.base2k (phase s res) t * 2 ^ (res.base2k * res.size)
+            + q * 2 ^ (res.base2k * res.size + res.base2k * res.size) := by
+  obtain ⟨r', h1, h2, h3, h4, _, h6⟩ := selfmap_generic hr (fun ri => normalizeAssignCol res.base2k ri N)
+    (normalizeAssignCoef res.base2k) (fun _ => rfl) (res.base2k * res.size) (res.base2k * res.size) 0
+    (kernelOn_of_bound hr hh.hH0 hb _ _ _ _ _ fun a ha hab => by
+      have h := C08.normalize_assign_value hh a hab
+      rw [ha] at h
+      obtain ⟨q, hq⟩ := h.2.2
+      exact ⟨h.1, q, 0, by linarith, by simp⟩)
+  refine ⟨r', h1, h2, h3, h4, fun s t ht => ?_⟩
+  obtain ⟨q, e, he, hb⟩ := h6 s t ht
+  have : e = 0 := by
+    have : |e| ≤ 0 := by simpa using hb
+    exact abs_eq_zero.mp (le_antisymm this (abs_nonneg e))
+  exact ⟨q, by rw [he, this]; ring⟩
+
+example : ∃ r', glweNormalizeAssign 2 { base2k := 4, k := 8, n := 2, cols := [[[3, -20], [100, 9]], [[0, 7], [-8, 8]]] } = .ok r' :=
+  let ⟨r', h, _⟩ := normalize_assign_phase (N := 2) (res := { base2k := 4, k := 8, n := 2, cols := [[[3, -20], [100, 9]], [[0, 7], [-8, 8]]] })
+    (by decide) (H := 2 ^ 62) ⟨by norm_num, by norm_num, by norm_num, by norm_num, by norm_num⟩
+    (by intro c hc l hl x hx; simp at hc; rcases hc with rfl | rfl <;> simp at hl <;> rcases hl with rfl | rfl <;> simp at hx <;>
+          rcases hx with rfl | rfl <;> norm_num)
+  ⟨r', h⟩
+
+/-- `glwe_lsh_assign` under the value specification of `vec_znx_lsh_assign` on the coefficient columns
+of `res` (`KernelOn`: `val(out)·2^py = val(in)·2^px + e + q·2^(px+py)`, `|e| ≤ U`) -/
+theorem lsh_assign_phase_modulo_norm {N : Nat} {res : GLWE} (hr : GWF N res) (k px py : Nat) (U : Int)
+    (hK : KernelOn N res (lshAssignCoef res.base2k k) res.base2k px py U) :
+    ∃ r', glweLshAssign N res k = .ok r' ∧ Same res r' ∧ GWF N r' ∧ r'.size = res.size ∧
+      ∀ (s : List Poly) t, t < N → ∃ q e : Int,
+        valCoeff res.base2k (phase s r') t * 2 ^ py = valCoeff res.base2k (phase s res) t * 2 ^ px + e + q * 2 ^ (px + py) ∧
+        |e| ≤ (1 + snorm (min res.rank s.length) s) * U := by
+  obtain ⟨r', h1, h2, h3, h4, _, h6⟩ := selfmap_generic hr (fun ri => lshAssignCol res.base2k k ri N)
+    (lshAssignCoef res.base2k k) (fun _ => rfl) px py U hK
+  exact ⟨r', h1, h2, h3, h4, h6⟩
+
+/-- rank 1, two limbs, radix `2^4` -/
+def exL : GLWE := { base2k := 4, k := 8, n := 2, cols := [[[3, -2], [5, 7]], [[1, 0], [-8, 6]]] }
+
+/-- left shift by 6 bits (8 bits of precision): exact, `val(out)/2^8 = val(in)·2^6/2^8 mod 1`, i.e. `px = 8`,
+`py = 2`, `U = 0`; the kernel hypothesis is checked on the four coefficient columns of this ciphertext -/
+example : ∃ r', glweLshAssign 2 exL 6 = .ok r' ∧
+    ∀ (s : List Poly) t, t < 2 → ∃ q e : Int,
+      valCoeff 4 (phase s r') t * 2 ^ 2 = valCoeff 4 (phase s exL) t * 2 ^ 8 + e + q * 2 ^ (8 + 2) ∧
+      |e| ≤ (1 + snorm (min 1 s.length) s) * 0 := by
+  obtain ⟨r', h, _, _, _, hp⟩ := lsh_assign_phase_modulo_norm (N := 2) (res := exL) (by decide) 6 8 2 0
+    (by
+      intro i hi t ht
+      have hi' : i ≤ 1 := hi
+      have : (i = 0 ∨ i = 1) ∧ (t = 0 ∨ t = 1) := by omega
+      rcases this with ⟨rfl | rfl, rfl | rfl⟩ <;> exact ⟨by decide, torus_exact_of_emod (by decide)⟩)
   exact ⟨r', h, hp⟩
 
 /-! ## straight-line programs
